@@ -187,8 +187,9 @@ def gen_stops(rng, n, tier):
     for _ in range(n):
         k = rng.randint(4, 10)
         xs = []; x = 0
+        frac = rng.random() < 0.4                       # steps of quarter metres: extents between the diameter and the next whole number (2.75 against 2.5) exist
         for _ in range(k):                              # a receiver on a straight road: it lingers (steps of 0 / 1) or moves on (steps of 20 .. 40)
-            x += rng.choice([0, 1, -1, 1, 0, 25, 40, -30])
+            x += rng.choice([0, 1, -1, 1, 0, 25, 40, -30]) if not frac else rng.choice([0, 1, -1, 0.75, -0.75, 1.25, 0.5, 1.75, -1.5, 25, 40, -30])
             xs.append(x)
         zs = [rng.choice([0, 0, 0, 3, 50, -20]) for _ in range(k)]        # heights (a lift, a ramp): the size of a stop is planimetric
         ts = [0]
